@@ -19,8 +19,9 @@
    [u : uni] is package unicode, [seg] is uniseg's grapheme clustering: oracles.  The oracle hypotheses are
    [oracle_ok u] (DEL is not upper-case, no upper-case rune lower-cases to DEL, among ASCII exactly a-z are lower-case) and
    [seg [r] = [[r]]] (one code point is one cluster). *)
+From Vx Require model.Term.
 From Vx Require Import base.Prelude gen.GenKeys gen.GenTermKeys model.Keys model.ParserTypes model.Parser
-  model.TermMouse model.TermKeys proofs.TermKeysProofs.
+  model.TermMouse model.TermKeys proofs.TermKeysProofs proofs.TermKeysChild proofs.TermKeysTie.
 Local Open Scope Z_scope.
 
 (* ---------- keys ---------- *)
@@ -147,6 +148,103 @@ Theorem C13_paste_brackets : forall (u : uni) (seg : list Z -> list (list Z)) (m
 Proof. exact paste_forward. Qed.
 Print Assumptions C13_paste_brackets.
 
+(* ---------- where the modes come from: the child's output ---------- *)
+(* Vocabulary (model/TermMouse.v, model/TermKeys.v):
+     mode_params b params md   mode.go decset (b = true) / decrst (b = false) over the WHOLE parameter list of one
+                               control function: every parameter is visited, in order (None = param[0] of an empty
+                               parameter, the Go panic);
+     child_csi / child_esc     csi.go / esc.go dispatch restricted to the input-related modes ("?h", "?l", ESC =,
+                               ESC >, ESC c);
+     child_items its md        term.go update over the parsed output; child_modes bs = child_items (parse_bytes bs)
+                               modes0 with the ANSI parser of C02 on the BYTES the child wrote;
+     reqs_of its               the DECSET / DECRST / keypad / reset requests contained in the output;
+     asked rs                  the specification reading: for each mode the child's LAST WORD, i.e. the last DECSET /
+                               DECRST that names the mode anywhere in its parameter list — whatever else the list
+                               names (1049, 47, 1047 ...), in whatever order — or the last full reset;
+     listed n params           mode n is named by one of the parameters. *)
+
+(* child_output_selects_modes.  Whatever the child writes: the modes the encoders consume are, mode by mode, the
+   child's last word.  Any number of parameters per control function, any order, any subset, on the primary and on
+   the alternate screen (the state before is arbitrary). *)
+Theorem C13_child_output_selects_modes : forall (its : list item) (md md' : tmodes),
+  child_items its md = Some md' -> md' = asked_from md (reqs_of its).
+Proof. exact child_items_asked. Qed.
+Print Assumptions C13_child_output_selects_modes.
+
+(* ... from the bytes *)
+Theorem C13_child_bytes_select_modes : forall (bs : list Z) (md : tmodes),
+  child_modes bs = Some md -> md = asked (reqs_of (parse_bytes bs)).
+Proof. intros bs md H. exact (child_items_asked _ _ _ H). Qed.
+Print Assumptions C13_child_bytes_select_modes.
+
+(* the mode switches never panic on parameters as the parser delivers them (never empty) *)
+Theorem C13_child_output_total : forall (its : list item) (md : tmodes),
+  Forall params_ok its -> exists md', child_items its md = Some md'.
+Proof. exact child_items_total. Qed.
+Print Assumptions C13_child_output_total.
+
+(* child_decrst_disables.  After a DECRST — at the end of any output — every mode it names is off, wherever the
+   mode stands in the parameter list and whatever else the list names: no paste brackets; no mouse report (only
+   alternate scroll, and not even that when 1049 or 1007 is named too); cursor keys in the CSI form. *)
+Theorem C13_child_decrst_disables : forall (u : uni) (its : list item) (params : list (list Z)) (md : tmodes),
+  child_items (its ++ [ICsi [63] params 108]) modes0 = Some md ->
+  (listed 2004 params = true -> term_update u md TPasteStart = [] /\ term_update u md TPasteEnd = []) /\
+  (listed 1000 params = true -> listed 1002 params = true -> listed 1003 params = true ->
+     forall m, is_click m || (ms_type m =? EventMotion) = true ->
+       handle_mouse md m =
+         if altscroll_applies md m
+         then (if ms_button m =? MouseWheelUp then ss3_up ++ ss3_up ++ ss3_up else ss3_down ++ ss3_down ++ ss3_down)
+         else []) /\
+  (listed 1000 params = true -> listed 1002 params = true -> listed 1003 params = true ->
+     listed 1049 params || listed 1007 params = true ->
+     forall m, is_click m || (ms_type m =? EventMotion) = true -> handle_mouse md m = []) /\
+  (listed 1 params = true ->
+     forall k x, xterm_mods (k_mods k) = 0 -> lookup1 cursor_finals (k_code k) = Some x ->
+       term_update u md (TKey k) = [27; 91; x]).
+Proof. exact child_decrst_disables. Qed.
+Print Assumptions C13_child_decrst_disables.
+
+(* child_decset_enables.  After a DECSET every mode it names is on: the paste brackets arrive; with 1006 and a
+   tracking mode named, presses and releases arrive; cursor keys in the SS3 form. *)
+Theorem C13_child_decset_enables : forall (u : uni) (seg : list Z -> list (list Z)) (its : list item)
+    (params : list (list Z)) (md : tmodes),
+  child_items (its ++ [ICsi [63] params 104]) modes0 = Some md ->
+  (listed 2004 params = true -> forward u seg md TPasteStart = [HPasteStart] /\ forward u seg md TPasteEnd = [HPasteEnd]) /\
+  (listed 1006 params = true -> listed 1000 params || listed 1002 params || listed 1003 params = true ->
+     forall m, is_click m = true -> button_ok (ms_button m) = true -> in_i63 (ms_col m) = true -> in_i63 (ms_row m) = true ->
+       forward u seg md (TMouse m) = [HMouse (mkMouse (ms_button m) (ms_row m) (ms_col m) (ms_type m) 0)]) /\
+  (listed 1 params = true ->
+     forall k x, xterm_mods (k_mods k) = 0 -> lookup1 cursor_finals (k_code k) = Some x ->
+       term_update u md (TKey k) = [27; 79; x]).
+Proof. exact child_decset_enables. Qed.
+Print Assumptions C13_child_decset_enables.
+
+(* one control function with several parameters = the same parameters one control function each (the
+   single-parameter operations [apply_op] of the key and mouse streams are the one-parameter instance), and a
+   parameter list may be cut anywhere *)
+Theorem C13_parameter_list_is_sequence : forall (b : bool) (ns : list Z) (p1 p2 : list (list Z)) (md : tmodes),
+  mode_params b (map (fun n => [n]) ns) md = Some (fold_left (fun m n => dec_mode m n b) ns md) /\
+  mode_params b (p1 ++ p2) md = match mode_params b p1 md with Some m => mode_params b p2 m | None => None end.
+Proof. intros b ns p1 p2 md. split; [apply mode_params_singletons|apply mode_params_app]. Qed.
+Print Assumptions C13_parameter_list_is_sequence.
+
+(* modes_tie_emulator.  The emulator model of C05/C06 (model/Term.v: csi -> fold_params decset1 / decrst1) and this
+   mode model agree on the control functions and the state they share: whenever Term.v's DECSET / DECRST returns,
+   this model returns too (both visit every parameter and panic on the same empty one), and the alternate-screen
+   bit (Term.m_smcup, which gates alternate scroll here) is the same afterwards; likewise after RIS. *)
+Theorem C13_modes_tie_emulator : forall (b : bool) (t t' : Term.term) (params : list (list Z)) (md : tmodes),
+  Term.csi t [63] params (if b then 104 else 108) = Term.TOk t' ->
+  Term.m_smcup (Term.t_md t) = m_smcup md ->
+  exists md', child_csi md [63] params (if b then 104 else 108) = Some md' /\
+              Term.m_smcup (Term.t_md t') = m_smcup md'.
+Proof. exact modes_tie_emulator. Qed.
+Print Assumptions C13_modes_tie_emulator.
+
+Theorem C13_modes_tie_emulator_ris : forall (t t' : Term.term) (md : tmodes),
+  Term.esc t [] 99 = Term.TOk t' -> Term.m_smcup (Term.t_md t') = m_smcup (child_esc md [] 99).
+Proof. exact modes_tie_ris. Qed.
+Print Assumptions C13_modes_tie_emulator_ris.
+
 (* ---------- non-vacuity ---------- *)
 Example C13_ex_oracles : oracle_ok ascii_uni /\ (forall r, rune_seg [r] = [[r]]).
 Proof. exact (conj ascii_oracle_ok (fun r => eq_refl)). Qed.
@@ -180,3 +278,24 @@ Example C13_ex_mouse :
   mouse_enabled (apply_ops [OpSet 1000]) m = false /\
   altscroll_applies (apply_ops [OpSet 1049]) (mkMouse MouseWheelUp 0 0 EventPress 0) = true.
 Proof. vm_compute. repeat split; reflexivity. Qed.
+
+(* the child's output as bytes: ESC[?2004h ESC[?1000;1006h ESC[?1h, then the clean-up ESC[?1049;1;1000;2004l sent on
+   the primary screen — 1049 first: afterwards paste, mouse and DECCKM are off, nothing is written for a paste
+   boundary or a click and Up is CSI A; the hypotheses of the two theorems above are satisfiable *)
+Example C13_ex_child :
+  let setup := [27; 91; 63; 50; 48; 48; 52; 104] ++ [27; 91; 63; 49; 48; 48; 48; 59; 49; 48; 48; 54; 104] ++ [27; 91; 63; 49; 104] in
+  let cleanup := [27; 91; 63; 49; 48; 52; 57; 59; 49; 59; 49; 48; 48; 48; 59; 50; 48; 48; 52; 108] in
+  let click := TMouse (mkMouse MouseLeftButton 4 3 EventPress 0) in
+  child_modes setup = Some (mkModes false true true true false false true false false) /\
+  child_update ascii_uni setup TPasteStart = Some paste_start_seq /\
+  child_update ascii_uni setup click = Some [27; 91; 60; 48; 59; 52; 59; 53; 77] /\
+  child_update ascii_uni setup (TKey (mkKey [] KeyUp 0 0 0 0)) = Some [27; 79; 65] /\
+  reqs_of (parse_bytes (setup ++ cleanup)) = [QSet [2004]; QSet [1000; 1006]; QSet [1]; QReset [1049; 1; 1000; 2004]] /\
+  child_modes (setup ++ cleanup) = Some (mkModes false false false false false false true false false) /\
+  child_update ascii_uni (setup ++ cleanup) TPasteStart = Some [] /\
+  child_update ascii_uni (setup ++ cleanup) click = Some [] /\
+  child_update ascii_uni (setup ++ cleanup) (TKey (mkKey [] KeyUp 0 0 0 0)) = Some [27; 91; 65] /\
+  parse_bytes cleanup = [ICsi [63] [[1049]; [1]; [1000]; [2004]] 108; IEof] /\
+  listed 2004 [[1049]; [1]; [1000]; [2004]] = true /\ listed 1 [[1049]; [1]; [1000]; [2004]] = true /\
+  Forall params_ok (parse_bytes (setup ++ cleanup)).
+Proof. vm_compute. repeat split; try reflexivity. repeat constructor; discriminate. Qed.
